@@ -198,6 +198,12 @@ def kinds_of(src: str) -> str:
 _TRANSLATES = re.compile(r"\{%-?\s*translate\b|\|\s*(t|gettext|ngettext|pgettext|npgettext)\b")
 
 
+# the context variables the locale-aware filters are configured by (liquid2/builtin/filters/babel.py, *_var defaults)
+CONFIG_VARS = {"currency_code", "locale", "currency_format", "input_locale", "timezone", "datetime_format", "input_timezone",
+               "decimal_quantization", "decimal_format", "unit_length", "unit_format"}
+_BABEL = re.compile(r"\|\s*(currency|money|money_with_currency|money_without_currency|money_without_trailing_zeros|datetime|decimal|unit)\b")
+
+
 def uses_translation(templates: dict) -> bool:
     return any(_TRANSLATES.search(src) for src in templates.values())
 
@@ -276,7 +282,9 @@ def judge(rec, opts):
             # the listed known finding: the catalog the translate tag and the translation filters read from the variable
             # `translations` (nothing else is excused: any other name in `missed` keeps the ordinary signature)
             site = where
-            if uses_translation(templates):
+            if set(missed) <= CONFIG_VARS and any(_BABEL.search(src) for src in templates.values()):
+                site = "filter-configuration"       # the third listed finding: what the babel filters read from the context
+            elif uses_translation(templates):
                 msgvars = {m for src in templates.values() for m in re.findall(r"(?<!%)%\((\w+)\)s", src)}
                 if missed == ["translations"]:
                     site = "translations-catalog"
